@@ -7,7 +7,7 @@ from checks import _ops
 
 PROPERTY = "C05"
 LEVEL = "translation_validation"
-CASE_TIMEOUT = {"quick": 420, "thorough": 1500}
+CASE_TIMEOUT = {"quick": 420, "thorough": 600}
 ENCODED = [
     "cirkit.symbolic.functional.differentiate",
     "cirkit.symbolic.operators.differentiate_polynomial_layer",
@@ -83,6 +83,10 @@ def cases(tier, seed):
                 d = dict(c)
                 d["semiring"] = s
                 out.append(d)
+        for i_, c in enumerate(_ops.random_pipes(seed, 100, "differentiate")):
+            d = dict(c)
+            d["semiring"] = "sum-product" if (zero_derivative(c) or i_ % 2 == 0) else "complex-lse-sum"
+            out.append(d)
     return out
 
 
